@@ -450,6 +450,14 @@ class Evaluator:
                 if isinstance(a, ast.Constant) and isinstance(a.value, str):
                     out.append(('lit', a.value))
                     continue
+                if isinstance(a, ast.BinOp) and isinstance(a.op, ast.Mod) and isinstance(a.left, ast.Constant) and \
+                   isinstance(a.left.value, str):
+                    # %s of a text that is itself `literal % values`: that text
+                    out += self.template(a, env)
+                    continue
+                if isinstance(a, ast.JoinedStr):
+                    out += self.template(a, env)
+                    continue
                 if isinstance(a, ast.Name) and isinstance(env.get(a.id), list) and env[a.id] and \
                    all(q[0] == 'lit' for q in env[a.id]):
                     out += env[a.id]
